@@ -27,9 +27,10 @@ def info(tier):
     return {
         "level": LEVEL,
         "rule": "scalar recipes (directed: every public scalar node kind x 4 variable-list relations; random: weighted "
-        "grammar, depth<=4, seeded) evaluated at 3 regular points (margin>=1e-2, |.|<=1e6) through 6 routes; a case is "
+        "grammar, depth<=4, seeded) evaluated at 3 regular points (margin>=1e-2, |.|<=1e6) through 6 routes; every second directed and every sixth random recipe "
+        "also as a DAG (the recipe occurring 2-4 times as ONE shared object inside t*t+t, sin(t)/(t*t+1.5), ...); a case is "
         "non-trivial if it has >=2 operator nodes; distinct = distinct canonical recipe+V hashes",
-        "required_cells": X.required_cells() + [c for c, _, _ in same_name_batches()],
+        "required_cells": X.required_cells() + [c for c, _, _ in same_name_batches()] + ["shared-subexpressions|" + v for v in X.VRELS],
         "assumptions": [
             "NumPy ufuncs are the arithmetic substrate of both optyx and the reference",
             "points are regular (distance to every singular set >= 1e-2); irregular points are excluded, not judged",
@@ -52,7 +53,10 @@ def run_case(case, rec, lowered=True):
     D = R.Decls(decls)
     fam, vrel = case["family"], case["vrel"]
     cell = f"{fam}|{vrel}"
-    rec.case({"d": decls, "n": node, "V": V}, nontrivial=A.n_ops(node) >= 2)
+    B.SHARE[0] = bool(case.get("share"))
+    rec.case({"d": decls, "n": node, "V": V, "s": B.SHARE[0]}, nontrivial=A.n_ops(node) >= 2)
+    if B.SHARE[0]:
+        cell = "shared-subexpressions|" + vrel
     try:
         b = B.Builder(decls)
         e = b.S(node)
@@ -242,8 +246,15 @@ def run_same_name_batch(rec, rng, cell, views, mk):
 
 def run(ctx, rec):
     rng = ctx.rng
+    k = 0
     for case in X.directed_cases(rng, ctx.mine):
         run_case(case, rec)
+        k += 1
+        if k % 2 == 0:
+            # the same family with the node occurring several times as one shared object (DAG)
+            sc = X.shared_case(rng, case, form=(k // 2) % len(X.DAG_FORMS))
+            if sc is not None:
+                run_case(sc, rec)
     for i, (cell, views, mk) in enumerate(same_name_batches()):
         if ctx.mine(i):
             vs = list(views)
@@ -258,6 +269,10 @@ def run(ctx, rec):
             rec.events["no-regular-point-or-no-vars"] += 1
             continue
         run_case(case, rec)
+        if n % 6 == 0:
+            sc = X.shared_case(rng, case)
+            if sc is not None:
+                run_case(sc, rec)
     hits = None
     try:
         from optyx.core.compiler import _compile_cached
